@@ -371,6 +371,18 @@ func (v *FnVerifier) runRoot(fn *ssa.Function, fc *FuncContract) {
 	for i, fv := range fn.FreeVars {
 		// closures verified on their own: free variables are unconstrained cells
 		f.env[fv] = v.freshVal(fmt.Sprintf("free.%s.%d", fv.Name(), i), fv.Type(), v.entry)
+		// in contracts the captured variable's name denotes its value at entry (go/ssa captures by reference)
+		if pt, ok := fv.Type().Underlying().(*types.Pointer); ok {
+			if ref, isRef := f.env[fv].(Term); isRef {
+				v.ctx.Assert(Not(Eq(ref, TNull)))
+				val := v.loadCell(v.entry, ref, pt.Elem(), false)
+				v.rootVars[fv.Name()] = TV{val, pt.Elem()}
+				f.oldVars[fv.Name()] = TV{val, pt.Elem()}
+				v.rootVars[fv.Name()+"$ref"] = TV{ref, fv.Type()}
+				f.oldVars[fv.Name()+"$ref"] = TV{ref, fv.Type()}
+				continue
+			}
+		}
 		v.rootVars[fv.Name()] = TV{f.env[fv], fv.Type()}
 		f.oldVars[fv.Name()] = TV{f.env[fv], fv.Type()}
 	}
